@@ -70,6 +70,10 @@ type PFCPConn struct {
 	hbCtxCancel context.CancelFunc
 
 	pendingReqs sync.Map
+
+	// sessMu serializes the handling of session-level messages with the session cleanup of
+	// the teardown, which may run in another goroutine (heartbeat failure, node stop).
+	sessMu sync.Mutex
 }
 
 func (pConn *PFCPConn) startHeartBeatMonitor() {
@@ -248,11 +252,17 @@ func (pConn *PFCPConn) doShutdown() {
 		pConn.hbCtxCancel = nil
 	}
 
-	// Cleanup all sessions in this conn
+	// Cleanup all sessions in this conn. A session request that the receive goroutine is
+	// handling right now finishes first: its session would be missed here, stay in the
+	// datapath and keep its UE address and TEIDs for ever.
+	pConn.sessMu.Lock()
+
 	for _, sess := range pConn.store.GetAllSessions() {
 		pConn.upf.SendMsgToUPF(upfMsgTypeDel, sess.PacketForwardingRules, PacketForwardingRules{})
 		pConn.RemoveSession(sess)
 	}
+
+	pConn.sessMu.Unlock()
 
 	rAddr := pConn.RemoteAddr().String()
 	pConn.done <- rAddr
